@@ -28,7 +28,7 @@ class C14(BaseCheck):
           'same method/args; every 3rd value case then issues 2-7 concurrent calls on a fresh client against a slow '
           'server (decoded requests must be exactly the calls made, each caller gets its own reply); every 4th case also '
           'calls a same-named method of two services that extend the same base service (different argument structs) '
-          'from one process, in a seeded order. non-trivial = at least 2 chunkings completed; distinct by (interface, '
+          'from one process, in a seeded order; in 40% of the cases a single send() accepts only 1-200 bytes. non-trivial = at least 2 chunkings completed; distinct by (interface, '
           'method, value classes, outcome kind, chunking class)')
   ANCHORS = ('scales.thrift.serializer:MessageSerializer.SerializeThriftCall',
              'scales.thrift.serializer:MessageSerializer.DeserializeThriftCall',
@@ -36,7 +36,7 @@ class C14(BaseCheck):
   REQUIRED_ANCHORS = ANCHORS
   REQUIRED_CLASSES = ('outcome:value', 'outcome:declared-exc', 'outcome:app-exc', 'outcome:void',
                       'iface:hello', 'iface:verif', 'iface:ext', 'chunk:1cut', 'chunk:2cut', 'chunk:kcut',
-                      'text:nonascii', 'text:empty', 'concurrent', 'two-services')
+                      'text:nonascii', 'text:empty', 'concurrent', 'two-services', 'short-sends')
   ASSUMPTIONS = ('interfaces: the repository\'s hello.Hello plus a hand-written module in the shape the '
                  'Thrift compiler emits (py:dynamic); no Thrift compiler is available offline',)
   QUICK_CASES = 480
@@ -135,6 +135,10 @@ class C14(BaseCheck):
       def __call__(self, server, conn, req):
         return dict(plan)
     srv = servers.ThriftServer(self.net, 'th', self.port, Policy(), pm)
+    if rng.random() < 0.4:
+      # a socket whose send() accepts only a few bytes per call (small buffers / huge frames)
+      srv.sim.send_limit = rng.choice([1, 5, 16, 200])
+      classes.add('short-sends')
     client = Thrift.NewClient(Iface, 'tcp://th:%d' % self.port, timeout=30)
 
     def call_once():
